@@ -107,11 +107,40 @@ def run_paths(ctx, fn, env0=None, this_names=("this",), include_exc=False, limit
             if d:
                 env[d] = Term.atom(f"store({d})")
 
+    def walrus(root, env):
+        # `(x := e)` inside the expression(s) evaluated at this node binds x (inner ones first)
+        if root is None:
+            return
+        found = [n for n in ast.walk(root) if isinstance(n, ast.NamedExpr) and isinstance(n.target, ast.Name)]
+        for n in reversed(found):
+            env[n.target.id] = mk_eval(env).ev(n.value)
+
+    def comp_unpack(st, env, ev):
+        """a, b, c = [f(g) for g in T]  ->  a = f(T[0]), b = f(T[1]), ...; True when handled"""
+        if not (isinstance(st, ast.Assign) and len(st.targets) == 1 and isinstance(st.targets[0], (ast.Tuple, ast.List))
+                and isinstance(st.value, (ast.ListComp, ast.GeneratorExp)) and len(st.value.generators) == 1):
+            return False
+        g = st.value.generators[0]
+        if g.ifs or not isinstance(g.target, ast.Name):
+            return False
+        it = ev.ev(g.iter)
+        for i, t in enumerate(st.targets[0].elts):
+            e2 = dict(env)
+            e2[g.target.id] = Term.atom(f"sub({it.key()},{i})")
+            bind(env, t, mk_eval(e2).ev(st.value.elt), ev)
+        return True
+
     def step(node, env, res):
         st = node.ast
+        if node.kind == "test" and st is not None and hasattr(st, "test"):
+            walrus(st.test, env)
+        elif node.kind in ("stmt", "return") and st is not None:
+            walrus(getattr(st, "value", None), env)
         ev = mk_eval(env)
         if node.kind == "stmt":
-            if isinstance(st, ast.Assign):
+            if comp_unpack(st, env, ev):
+                pass
+            elif isinstance(st, ast.Assign):
                 if isinstance(st.value, ast.Tuple) and len(st.targets) == 1 and isinstance(st.targets[0], ast.Tuple) \
                         and len(st.value.elts) == len(st.targets[0].elts):
                     vals = [ev.ev(e) for e in st.value.elts]
